@@ -132,6 +132,8 @@ func (v *vc) execCall(fr *frame, st *state, instr ssa.Instruction, c *ssa.CallCo
 		args[i] = v.val(fr, st, a)
 	}
 	sig := c.Signature()
+	var callee *ssa.Function
+	var clo *ssa.MakeClosure
 	if c.IsInvoke() {
 		recv := v.val(fr, st, c.Value)
 		if !(fr.fc != nil && fr.fc.nosafety) {
@@ -140,6 +142,15 @@ func (v *vc) execCall(fr *frame, st *state, instr ssa.Instruction, c *ssa.CallCo
 		if v.intrinsic(fr, st, instr, name, c, append([]string{recv}, args...), res) {
 			return
 		}
+		if m := v.devirt(c); m != nil {
+			// the receiver's dynamic type is fixed by the code: dispatch statically
+			callee = m
+			name = m.String()
+			args = append([]string{fmt.Sprintf("(i_val %s)", recv)}, args...)
+		}
+	}
+	if c.IsInvoke() && callee == nil {
+		recv := v.val(fr, st, c.Value)
 		if fc := v.eng.contracts.funcs["."+name]; fc != nil {
 			v.contractCall(fr, st, instr, fc, nil, c, append([]string{recv}, args...), res, site)
 			return
@@ -157,18 +168,18 @@ func (v *vc) execCall(fr *frame, st *state, instr ssa.Instruction, c *ssa.CallCo
 		v.setResult(fr, st, res, v.havocResults(st, sig, shortCallee(c)))
 		return
 	}
-	var callee *ssa.Function
-	var clo *ssa.MakeClosure
-	switch f := c.Value.(type) {
-	case *ssa.Function:
-		callee = f
-	case *ssa.MakeClosure:
-		callee = f.Fn.(*ssa.Function)
-		clo = f
-	default:
-		if mc := fr.closures()[c.Value]; mc != nil {
-			callee = mc.Fn.(*ssa.Function)
-			clo = mc
+	if !c.IsInvoke() {
+		switch f := c.Value.(type) {
+		case *ssa.Function:
+			callee = f
+		case *ssa.MakeClosure:
+			callee = f.Fn.(*ssa.Function)
+			clo = f
+		default:
+			if mc := fr.closures()[c.Value]; mc != nil {
+				callee = mc.Fn.(*ssa.Function)
+				clo = mc
+			}
 		}
 	}
 	if callee == nil && v.fc != nil && v.fc.dynPure {
@@ -231,10 +242,14 @@ func (v *vc) inlineCall(fr *frame, st *state, callee *ssa.Function, clo *ssa.Mak
 		if i < len(args) {
 			nf.vals[p] = args[i]
 		}
-		if i < len(c.Args) {
+		off := 0
+		if c.IsInvoke() {
+			off = 1 // a devirtualised interface call: Params[0] is the receiver, which c.Args does not hold
+		}
+		if i-off >= 0 && i-off < len(c.Args) {
 			// interior pointers (address of a nested struct field / local) are passed as addresses
-			if a, ok := fr.addrs[c.Args[i]]; ok {
-				if _, isVal := fr.vals[c.Args[i]]; !isVal || args[i] == "interior_ptr" {
+			if a, ok := fr.addrs[c.Args[i-off]]; ok {
+				if _, isVal := fr.vals[c.Args[i-off]]; !isVal || args[i] == "interior_ptr" {
 					nf.addrs[p] = a
 					delete(nf.vals, p)
 				}
@@ -396,6 +411,31 @@ func (v *vc) contractCall(fr *frame, st *state, instr ssa.Instruction, fc *funcC
 	} else {
 		for _, m := range fc.modifies {
 			v.applyModifies(se, st, pre, m)
+		}
+		// a closure handed to the callee may be called by it: the variables that closure captures and writes
+		// may change, whatever the callee's own frame says
+		for _, a := range c.Args {
+			mc, _ := a.(*ssa.MakeClosure)
+			if mc == nil {
+				mc = fr.closures()[a]
+			}
+			if mc == nil {
+				continue
+			}
+			cfn, ok := mc.Fn.(*ssa.Function)
+			if !ok {
+				continue
+			}
+			for i, b := range mc.Bindings {
+				if i >= len(cfn.FreeVars) || !writesThrough(cfn.FreeVars[i], map[ssa.Value]bool{}) {
+					continue
+				}
+				if ad := v.addrOf(fr, st, b); ad != nil && !isStruct(ad.typ) {
+					v.store(st, ad, v.havoc("captured", ad.typ, st))
+				} else {
+					v.havocAll(st)
+				}
+			}
 		}
 		// the callee may allocate whatever its frame says
 		nt := v.fresh("top")
@@ -799,7 +839,10 @@ func (v *vc) callMods(fr *frame, c *ssa.CallCommon, m *modSet, depth int) {
 	}
 	var fc *funcContract
 	var callee *ssa.Function
-	if c.IsInvoke() {
+	if dm := v.devirt(c); dm != nil {
+		callee = dm
+		fc = v.eng.contractFor(dm)
+	} else if c.IsInvoke() {
 		fc = v.eng.contracts.funcs["."+name]
 		if _, named := c.Value.Type().(*types.Named); fc == nil && !named && v.fc != nil {
 			fc = v.eng.contracts.funcs[v.fc.pkgPath+".(iface)."+c.Method.Name()]
@@ -829,6 +872,23 @@ func (v *vc) callMods(fr *frame, c *ssa.CallCommon, m *modSet, depth int) {
 		if !fc.hasMod {
 			m.all = true
 			return
+		}
+		for _, a := range c.Args {
+			mc, _ := a.(*ssa.MakeClosure)
+			if mc == nil {
+				mc = fr.closures()[a]
+			}
+			if mc == nil {
+				continue
+			}
+			if cfn, ok := mc.Fn.(*ssa.Function); ok {
+				for i := range mc.Bindings {
+					if i >= len(cfn.FreeVars) || writesThrough(cfn.FreeVars[i], map[ssa.Value]bool{}) {
+						m.all = true // the callee may run a closure that writes its captured variables
+						return
+					}
+				}
+			}
 		}
 		for _, e := range fc.modifies {
 			if e == "*" {
@@ -867,6 +927,11 @@ func (v *vc) callMods(fr *frame, c *ssa.CallCommon, m *modSet, depth int) {
 		return
 	}
 	if v.eng.isPure(name) {
+		m.allocs = true
+		return
+	}
+	if callee == nil && !c.IsInvoke() && v.fc != nil && v.fc.dynPure {
+		// calls through function values are assumed (and listed) not to write the modelled state
 		m.allocs = true
 		return
 	}
